@@ -7,12 +7,14 @@ use serde::de::DeserializeOwned;
 use serde::Serialize;
 use serde_json::{json, Value};
 use std::collections::{BTreeMap, BTreeSet};
-use std::sync::atomic::{AtomicU64, AtomicUsize, Ordering};
+use std::sync::atomic::{AtomicU64, Ordering};
 use std::sync::Mutex;
 use std::time::{Duration, Instant};
 
 pub const NCOUNT: usize = 64;
 pub const BLOCK: u64 = 256;
+/// at most this many distinct signatures are kept (conservative undercount beyond)
+pub const SIG_CAP: usize = 3_000_000;
 
 #[derive(Clone, Copy, Debug, PartialEq, Eq)]
 pub enum Tier {
@@ -306,6 +308,7 @@ pub fn write_replay<S: Scenario>(
         "seed": cfg.seed,
         "run": run,
         "tier": cfg.tier.name(),
+        "build": crate::dev::EIO_BUILD,
         "trace": minimised,
         "original_trace_digest": trace_digest(original),
         "minimise_steps": steps,
@@ -369,20 +372,76 @@ pub fn run<S: Scenario>(cfg: &RunCfg) -> i32 {
     let nblocks = cfg.runs.div_ceil(BLOCK);
     let next = AtomicU64::new(0);
     let stop_at = AtomicU64::new(u64::MAX); // lowest violating block so far
-    let stats: Mutex<BTreeMap<u64, BlockStats>> = Mutex::new(BTreeMap::new());
     // (run, violation) for unknown violations; known ones are collected separately
     let viols: Mutex<BTreeMap<u64, Violation<S::Trace>>> = Mutex::new(BTreeMap::new());
     let known_hits: Mutex<BTreeMap<usize, (u64, String)>> = Mutex::new(BTreeMap::new());
-    let live = AtomicUsize::new(0);
     let np = S::probe_names().len();
     let nf = S::fault_names().len();
     let nx = S::extra_names().len();
     assert!(np <= NCOUNT && nf <= NCOUNT && nx <= 8);
 
+    // Blocks are merged strictly in block order as they complete (streaming, so memory stays
+    // bounded), and only up to the lowest violating block: the totals do not depend on timing.
+    struct Merger {
+        pending: BTreeMap<u64, BlockStats>,
+        next: u64,
+        tot: BlockStats,
+        digest: Fnv,
+        sig_capped: bool,
+    }
+    let merger = Mutex::new(Merger {
+        pending: BTreeMap::new(),
+        next: 0,
+        tot: BlockStats {
+            probes: vec![0; np],
+            faults: vec![0; nf],
+            extra: vec![0; nx],
+            ..Default::default()
+        },
+        digest: Fnv::new(),
+        sig_capped: false,
+    });
+    let merge_ready = |m: &mut Merger| {
+        while let Some(bs) = m.pending.remove(&m.next) {
+            let b = m.next;
+            m.next += 1;
+            if b > stop_at.load(Ordering::SeqCst) {
+                continue;
+            }
+            let tot = &mut m.tot;
+            tot.runs += bs.runs;
+            tot.evals += bs.evals;
+            tot.events += bs.events;
+            tot.bytes += bs.bytes;
+            for i in 0..np {
+                tot.probes[i] += bs.probes[i];
+            }
+            for i in 0..nf {
+                tot.faults[i] += bs.faults[i];
+            }
+            for i in 0..nx {
+                tot.extra[i] += bs.extra[i];
+            }
+            for (k, v) in &bs.skipped {
+                *tot.skipped.entry(k).or_insert(0) += v;
+            }
+            if tot.sigs.len() < SIG_CAP {
+                tot.sigs.extend(bs.sigs.iter().copied());
+            } else {
+                m.sig_capped = true;
+            }
+            m.digest.u64(b);
+            m.digest.u64(bs.digest);
+            if tot.sample_runs.len() < 4 {
+                tot.sample_runs.extend(bs.sample_runs.iter().copied());
+                tot.sample_runs.truncate(4);
+            }
+        }
+    };
+
     std::thread::scope(|sc| {
         for _ in 0..cfg.threads.max(1) {
             sc.spawn(|| {
-                live.fetch_add(1, Ordering::SeqCst);
                 loop {
                     let b = next.fetch_add(1, Ordering::SeqCst);
                     if b >= nblocks || b > stop_at.load(Ordering::SeqCst) {
@@ -445,53 +504,19 @@ pub fn run<S: Scenario>(cfg: &RunCfg) -> i32 {
                             }
                         }
                     }
-                    stats.lock().unwrap().insert(b, bs);
+                    let mut m = merger.lock().unwrap();
+                    m.pending.insert(b, bs);
+                    merge_ready(&mut m);
                 }
             });
         }
     });
 
-    let stats = stats.into_inner().unwrap();
     let viols = viols.into_inner().unwrap();
     let known_hits = known_hits.into_inner().unwrap();
-
-    // merge in block order, only blocks up to the violating one: deterministic
-    let limit = stop_at.load(Ordering::SeqCst);
-    let mut tot = BlockStats {
-        probes: vec![0; np],
-        faults: vec![0; nf],
-        extra: vec![0; nx],
-        ..Default::default()
-    };
-    let mut digest = Fnv::new();
-    for (b, bs) in &stats {
-        if *b > limit {
-            continue;
-        }
-        tot.runs += bs.runs;
-        tot.evals += bs.evals;
-        tot.events += bs.events;
-        tot.bytes += bs.bytes;
-        for i in 0..np {
-            tot.probes[i] += bs.probes[i];
-        }
-        for i in 0..nf {
-            tot.faults[i] += bs.faults[i];
-        }
-        for i in 0..nx {
-            tot.extra[i] += bs.extra[i];
-        }
-        for (k, v) in &bs.skipped {
-            *tot.skipped.entry(k).or_insert(0) += v;
-        }
-        tot.sigs.extend(bs.sigs.iter().copied());
-        digest.u64(*b);
-        digest.u64(bs.digest);
-        if tot.sample_runs.len() < 4 {
-            tot.sample_runs.extend(bs.sample_runs.iter().copied());
-        }
-    }
-    tot.sample_runs.truncate(4);
+    let mut m = merger.into_inner().unwrap();
+    merge_ready(&mut m);
+    let Merger { tot, digest, sig_capped, .. } = m;
 
     for (k, (run, detail)) in &known_hits {
         println!(
@@ -590,6 +615,7 @@ pub fn run<S: Scenario>(cfg: &RunCfg) -> i32 {
         "real_components": S::real_components(),
         "simulated_components": S::simulated_components(),
         "known_findings_hit": known_hits.len(),
+        "distinct_nontrivial_is_capped": sig_capped,
     });
     if let Some(p) = &cfg.extra_coverage {
         if let Ok(txt) = std::fs::read_to_string(p) {
